@@ -89,7 +89,7 @@ fn subs() -> Vec<Sub> {
                  kind: Kind::Random { quick: 1_000_000, thorough: 4_000_000, tape: 768, f: c09_random } });
     v.push(Sub { prop: "C09", name: "presence", rule: "every generated schema x every presence combination of root-level optional fields (exhaustive up to 6): round-trip",
                  kind: Kind::Enumerate { quick: np, thorough: np, f: presence09, complete_quick: true, complete_thorough: true } });
-    v.push(Sub { prop: "C10", name: "version-pairs", rule: "pairs (old, new) of generated schema universes related by 1-4 documented-compatible edits (add/drop optional field at fresh or gap index, add variant to an optional-only enum, unit variant -> variant with optional fields): a value of either version decodes with the other; field-wise comparison through a schema-generic view (shared equal, reader-only absent, writer-only ignored, unknown variant -> None with siblings intact), exact consumption; non-trivial = the two views differ",
+    v.push(Sub { prop: "C10", name: "version-pairs", rule: "pairs (old, new) of generated schema universes related by 1-4 documented-compatible edits (add/drop optional field at fresh or gap index, add variant to an optional-only enum, unit variant -> variant with optional fields): a value of either version decodes with the other; field-wise comparison through a schema-generic view (shared equal, reader-only absent, writer-only ignored, unknown variant -> None with siblings intact), exact consumption; then (a) 1-3 fields unknown to BOTH versions are injected into the same bytes - arbitrary well-formed items (all major types, wide heads, indefinite containers/strings, tag chains, integers beyond i64, half floats, simple values) appended behind the reader's highest index (array) or inserted under unused keys at generated positions (map) - and (b) the writer's value is re-framed (wider heads, indefinite bodies): the reader must return exactly the view it returned for the plain bytes and consume everything; non-trivial = the two views differ, or an injected / re-framed input",
                  kind: Kind::Random { quick: 1_500_000, thorough: 6_000_000, tape: 768, f: c10_random } });
     v
 }
